@@ -121,14 +121,14 @@ def gen_cases(ctx):
     rng = ctx.rng
     cases = []
     cap = 48
-    n1, n2, n3 = ctx.scale(70, 900), ctx.scale(50, 600), ctx.scale(20, 250)
+    n1, n2, n3 = ctx.scale(120, 1200), ctx.scale(90, 900), ctx.scale(40, 400)
     for d, n in ((1, n1), (2, n2), (3, n3)):
         for _ in range(n):
             cases.append(gen_layer_case(rng, d, cap))
-    for _ in range(ctx.scale(30, 350)):
+    for _ in range(ctx.scale(50, 500)):
         cases.append(gen_fno_case(rng, rng.choice([1, 1, 2, 3]), 24))
     # default precision (float32 / complex64): oracles only
-    for _ in range(ctx.scale(30, 350)):
+    for _ in range(ctx.scale(50, 500)):
         d = rng.choice([1, 2, 3])
         cases.append(gen_layer_case(rng, d, 256 if d > 1 else 48, f32=True) if rng.random() < 0.6
                      else gen_fno_case(rng, d, 64, f32=True))
